@@ -509,8 +509,12 @@ they are listed in §8 with the property whose check found them.
   `reasm_once_resumed`, `resumed_other_delivery`) and `Amqp/TxnRoute.lean` (the decision of
   `TxnSession::on_incoming_transfer` per transfer and its table `incomplete_posts`, regenerated as
   `source_route_shape`; theorems `post_withheld_whole`, `withheld_in_order`, `abort_ends_the_post`,
-  `after_abort_next_is_plain`, `other_links_untouched`). Writing the second model turned up a defect (an abort
-  frame that says `more` left its link marked as in the middle of a post; fixed, 2716544, corpus C18/004).
+  `after_abort_next_is_plain`, `other_links_untouched`). Writing the second model turned up two defects,
+  both fixed: an abort frame that says `more` left its link marked as in the middle of a post (2716544, corpus
+  C18/004), and — found when `post_withheld_whole` was about to be composed with `reasm_once`, whose
+  continuation frames may repeat the delivery-tag while the routing model's could not — continuation
+  transfers that repeat the tag and leave the state out went to the link on their own (a1d507f, corpus
+  C18/005; the table now keeps the post's tag, and so does the model).
   Not modelled: what the resuming attach exchanges (the unsettled maps), and in `TxnRoute` whether the named
   transaction is live (that is `Amqp.Txn`, at the level of whole posts) — the two models are not yet composed
   into one.
